@@ -6,8 +6,8 @@
 (*     small tables with key choices for dictable.sort(), each with the result CmpModel gives. *)
 (* (3) Mode "big": the same two things over numbers of large magnitude (OrderBig: ints beyond  *)
 (*     2^53 that share a double, floats at the edge of integer precision, huge / tiny floats,  *)
-(*     negatives, containers of them): CmpModelX (conversion to double explicit) satisfies the *)
-(*     axioms and the pinned entries, the exact-int fast path CmpModelFast does not; lists,    *)
+(*     negatives, containers of them): CmpModelExact and CmpModelX (through the doubles) both  *)
+(*     satisfy the axioms and pinned entries, the exact-int fast path CmpModelFast does not; lists, *)
 (*     tuples and tables over such numbers are enumerated for the S2C replay.                  *)
 EXTENDS OrderBig, Json, SequencesExt
 CONSTANTS MaxLen, Mode     \* Mode: "laws" | "lists" | "tuples" | "tables" | "big"
@@ -32,7 +32,7 @@ U == Scalars \cup Containers
 \* ---- (1) laws ---------------------------------------------------------------------------------
 \* (every invariant is guarded by `done`: TLC evaluates invariants of initial states in one thread, those of
 \*  successor states on all workers; each input is one initial state and its one successor)
-C(u, v) == IF Mode = "big" THEN CmpModelX(u, v) ELSE CmpModel(u, v)
+C(u, v) == IF Mode = "big" THEN CmpModelExact(u, v) ELSE CmpModel(u, v)
 Antisym   == (Mode = "laws" /\ done) => C(x, y) = -C(y, x)
 Reflexive == (Mode = "laws" /\ done) => C(x, x) = 0
 Transitive == (Mode = "laws" /\ done) => \A z \in U : (C(x, y) <= 0 /\ C(y, z) <= 0) => (C(x, z) <= 0 /\ ((C(x, y) < 0 \/ C(y, z) < 0) => C(x, z) < 0))
@@ -74,30 +74,30 @@ BigContainers == {VTup(<<B53>>), VTup(<<B53p1>>), VTup(<<B53f>>), VLst(<<B53p1>>
                   <<"m", <<<<"k", B53>>>>>>, VTup(<<B53p1, VInt(1)>>), VTup(<<B53f, VInt(2)>>), VTup(<<B53, VInt(2)>>), VTup(<<VTup(<<B53p1>>), None>>)}
 UX == BigInts \cup BigFlts \cup BigContainers \cup
       {None, VBool(TRUE), VInt(0), VInt(1), VInt(-1), VFlt(5, 2), VFlt(-1, 2), VNaN(1), VNaN(2), VInf(1), VInf(-1), VStr("a"), VTup(<<VInt(1)>>)}
+\* the mechanisms' whole comparison matrices over UX (constant level: computed once), judged by the very
+\* operators the trace specification applies to the matrix observed from the code
+UXSeq == SetToSeq(UX)
+MatOf(F(_, _)) == [i \in 1..Len(UXSeq) |-> [j \in 1..Len(UXSeq) |-> F(UXSeq[i], UXSeq[j])]]
+MXd == MatOf(CmpModelX)          \* through the doubles (the code before repair f59ec17)
+MXe == MatOf(CmpModelExact)      \* exact (the code today)
+MXf == MatOf(CmpModelFast)       \* two ints exactly, the rest through the doubles
+PairwiseOK(M, i) == /\ RaisedRow(UXSeq, M, i) = {} /\ NotAntisymRow(UXSeq, M, i) = {} /\ M[i][i] = 0
+                    /\ NotPinnedRow(UXSeq, M, i) = {} /\ NotPinnedBigRow(UXSeq, M, i) = {}
+RowOK(M, i) == PairwiseOK(M, i) /\ NotTransRow(UXSeq, M, i) = {}
 IsLaw == Mode = "big" /\ done /\ x.kind = "law"
-TransBad(F(_, _), a, b, c) == LET ab == F(a, b) IN ab <= 0 /\ LET bc == F(b, c) IN bc <= 0 /\ LET ac == F(a, c) IN ~(ac <= 0 /\ ((ab < 0 \/ bc < 0) => ac < 0))
-\* both lawful mechanisms: through the doubles (the code) and exact
-Lawful(F(_, _)) == /\ F(x.u, x.v) = -F(x.v, x.u) /\ F(x.u, x.u) = 0
-                   /\ \A z \in UX : ~TransBad(F, x.u, x.v, z)
-                   /\ (PinnedBig(x.u, x.v) => F(x.u, x.v) \in AllowedBig(x.u, x.v))
-                   /\ (Pinned(x.u, x.v) => F(x.u, x.v) = PinnedValue(x.u, x.v))
-BigLawsDouble == IsLaw => Lawful(CmpModelX)
-BigLawsExact  == IsLaw => Lawful(CmpModelExact)
-BigWellFormed == IsLaw => XAllWellFormed(x.u)
-\* the mechanism ties ints exactly when they round to one double, so CoarseTie is used and is not empty
-BigCoarseTieUsed == (IsLaw /\ x.u = B53 /\ x.v = B53p1) => (C(x.u, x.v) = 0 /\ ExactCmp(x.u, x.v) = -1)
+BigLawsDouble == IsLaw => RowOK(MXd, x.i)          \* both are lawful
+BigLawsExact  == IsLaw => RowOK(MXe, x.i)
+BigWellFormed == IsLaw => XAllWellFormed(UXSeq[x.i])
+\* the mechanism through the doubles ties ints exactly when they round to one double: CoarseTie is used; the exact one never ties them
+BigCoarseTieUsed == (IsLaw /\ UXSeq[x.i] = B53) => (CmpModelX(B53, B53p1) = 0 /\ ExactCmp(B53, B53p1) = -1 /\ CmpModelExact(B53, B53p1) = -1)
 \* the exact-int fast path passes every pairwise clause and is rejected by transitivity alone
-BigFastPathRejected == (IsLaw /\ x.u = B53p1 /\ x.v = B53f) =>
-                          /\ \E z \in UX : TransBad(CmpModelFast, x.u, x.v, z)
-                          /\ CmpModelExact(B53, B53p1) = -1
-                          /\ \A a \in BigInts \cup BigFlts, b \in BigInts \cup BigFlts :
-                                CmpModelFast(a, b) = -CmpModelFast(b, a) /\ CmpModelFast(a, b) \in AllowedBig(a, b)
+BigFastPathRejected == IsLaw => (PairwiseOK(MXf, x.i) /\ (UXSeq[x.i] = B53p1 => NotTransRow(UXSeq, MXf, x.i) # {}))
 SortBigU == {None, VInt(1), VFlt(5, 2), VNaN(1), VStr("a"), B53, B53p1, XPlus("i", 1, 53, 2), B53f, XPlus("f", 1, 53, 2),
              XPlus("i", -1, 53, 1), XPlus("f", -1, 53, 0), XPlus("f", 1, 1000, 0), XPlus("f", 1, -1000, 0)}
 TupBigU  == {VTup(<<a, b>>) : a \in {None, B53, B53p1, B53f, VNaN(1)}, b \in {XPlus("i", 1, 53, 2), XPlus("f", 1, 53, 2), VInt(1)}}
 KeyBigU  == {None, VInt(1), B53, B53p1, B53f}
 BigRowsUpTo(n) == UNION {[1..k -> [a : KeyBigU, b : KeyBigU]] : k \in 0..n}
-BigInit == {[kind |-> "law", u |-> u, v |-> v] : u \in UX, v \in UX}
+BigInit == {[kind |-> "law", i |-> i] : i \in 1..Len(UXSeq)}
            \cup {[kind |-> "list", xs |-> s] : s \in SeqsUpTo(SortBigU, MaxLen) \cup SeqsUpTo(TupBigU, MaxLen - 1)}
            \cup {[kind |-> "table", rows |-> WithIds(r), by |-> b] : r \in BigRowsUpTo(MaxLen - 1), b \in Bys}
 BigSortLaws == (Mode = "big" /\ done /\ x.kind = "list") =>
